@@ -67,6 +67,10 @@ def run(tier):
     S.validate([f for f, _, _ in specs] + ['known_size_in_bytes_as_word_member'], [], n_un, 0)
     import containercheck
     S.container_bounds = containercheck.run(S, tier)
+    if tier != 'quick':
+        # more containers, leaf types only (the number of containers is cheap, the type depth is not)
+        more = containercheck.run(S, tier, bounds=(6, 1), sfx='@6x1')
+        S.container_bounds['second_configuration'] = {'containers': more['containers'], 'container_type_depth': more['container_type_depth']}
     return finish(S, tier, ['order independence of whole programs and duplicate-name detection (predeclare): not encoded',
                             'analyzer states after the first reported containment cycle (the module is rejected already)',
                             'resolution ids of 8 and above (the HashSet<u32> model is an 8-bit set)'])
